@@ -63,6 +63,14 @@ def run(model, res, tier):
 # ---------------------------------------------------------------------------------------------------
 # R1
 
+def catch_all_rule(model, tmp, c):
+    """R1 as a unit (borrowed by the properties whose functions answer 'an error rather than a value' through an exception that parse()
+    turns into #ERROR!): the catch-all of parse() covers every exception class."""
+    root = c.root
+    m, f = c.cg.funcs[root]
+    _r1(model, tmp, c, m, f, root)
+
+
 def _handler_covers_all(h):
     if h.type is None:
         return True
